@@ -167,15 +167,14 @@ def mk(op, *a):
                 op, y = '>', C(y[1] - 1)
             elif op == '<=':
                 op, y = '<', C(y[1] + 1)
-            # (x & 1) != 0  etc.
+            # truthiness forms: canonical is x itself for boolean-kinded x, else (x != 0)
             m = mask_of(x)
-            if m is not None and m in (0, 1) or x[0] in BOOLK:
-                if op == '!=' and y[1] == 0: return mk_bool(x)
-                if op == '==' and y[1] == 1: return mk_bool(x)
-                if op == '==' and y[1] == 0: return mk_not(x)
-                if op == '!=' and y[1] == 1: return mk_not(x)
-                if op == '>' and y[1] == 0: return mk_bool(x)
-                if op == '<' and y[1] == 1: return mk_not(x)
+            if x[0] in BOOLK:
+                if (op == '!=' and y[1] == 0) or (op == '==' and y[1] == 1) or (op == '>' and y[1] == 0): return x
+                if (op == '==' and y[1] == 0) or (op == '!=' and y[1] == 1) or (op == '<' and y[1] == 1): return mk_not(x)
+            elif m is not None and m in (0, 1):
+                if (op == '==' and y[1] == 1) or (op == '>' and y[1] == 0): return ('!=', x, C(0))
+                if (op == '!=' and y[1] == 1) or (op == '<' and y[1] == 1): return ('==', x, C(0))
         elif op in ('==', '!='):
             if key(x) > key(y):
                 x, y = y, x
@@ -336,10 +335,9 @@ def mk_bool(x):
         for a, b in ((x[1], x[2]), (x[2], x[1])):
             if b[0] == '*' and len(b) == 3 and b[2] == C(-1):
                 return mk('!=', a, b[1])
-    mx = mask_of(x)
-    if mx == 1:
-        return ('bool', x)
-    return ('bool', x)
+    if x[0] == 'bool':
+        return mk_bool(x[1])
+    return ('!=', x, C(0))
 
 def mk_not(x):
     x = mk_bool(x)
@@ -442,6 +440,8 @@ def post(t):
         return mk_bop(k, t[1:])
     if k == 'not':
         return mk_not(t[1])
+    if k == 'bool':
+        return mk_bool(t[1])
     return t
 
 def subst(t, mapping):
